@@ -1,7 +1,1298 @@
-//! C18 — not built yet
-use crate::vcore::Tier;
+//! C18 — the AY chip turns any register history into the sound its registers define.
+//!
+//! A  core, tick exact (hooks verif_tick / verif_levels on the real AymPrecise):
+//!    all tone periods x 3 channels, all noise periods, 16 shapes x 7 envelope periods,
+//!    all R7 values x 3 channels (gating truth table against measured tone-only / noise-only
+//!    waveforms), all volume register values x 3 channels x 2 chips, 7 stereo modes x 3 channels.
+//! B  public API, analog path: 12 sample rates x 4 programmes: finite and |s| <= 4; single-tone
+//!    frequency from threshold crossings within 1 % of f_clk/(16 TP).
+//! C  E-BFS over histories of register writes and sample generation (every history replayed on a
+//!    fresh chip): no panic, bounded samples, and after the history the generators run at the
+//!    periods of the final register file, the raw output is the gated sum the final register file
+//!    defines, and write-only histories are order independent (R13 excluded).
+//! D  Spectrum ports on the real Emulator (48K+AY, 128K): all 256 select values x data alphabet.
 
-pub fn run(_tier: Tier, _seed: u64, _replay: Option<String>) -> i32 {
-    eprintln!("MACHINERY: check C18 is not built yet");
-    2
+#[path = "../ay_common.rs"]
+mod ay_common;
+
+use crate::rig::{self, Opts};
+use crate::vcore::{fnv, fnv_mix, par_for, par_for_with, Ctx, Tier};
+use ay_common::{panic_shape, Collector};
+use aym::{AyMode, AymBackend, AymPrecise, SoundChip};
+use serde_json::{json, Value};
+use std::collections::HashSet;
+use std::panic::{catch_unwind, AssertUnwindSafe};
+use std::sync::Mutex;
+
+const FCLK: usize = 1_773_400;
+const BOUND: f64 = 4.0;
+type Fail = (String, String);
+
+const MODE_NAMES: [&str; 7] = ["Mono", "ABC", "ACB", "BAC", "BCA", "CAB", "CBA"];
+const CH: [&str; 3] = ["A", "B", "C"];
+
+fn mode_from(code: u8) -> AyMode {
+    match code {
+        0 => AyMode::Mono,
+        1 => AyMode::ABC,
+        2 => AyMode::ACB,
+        3 => AyMode::BAC,
+        4 => AyMode::BCA,
+        5 => AyMode::CAB,
+        _ => AyMode::CBA,
+    }
+}
+
+fn chip(ym: bool, mode: u8, rate: usize) -> AymPrecise {
+    <AymPrecise as AymBackend>::new(if ym { SoundChip::YM } else { SoundChip::AY }, mode_from(mode), FCLK, rate)
+}
+
+fn guarded<T>(entry: &str, f: impl FnOnce() -> Result<T, Fail>) -> Result<T, Fail> {
+    match catch_unwind(AssertUnwindSafe(f)) {
+        Ok(r) => r,
+        Err(p) => Err((
+            format!("C18:panic:{}:{}", entry, panic_shape(&p)),
+            format!("{} panicked: {}", entry, panic_shape(&p)),
+        )),
+    }
+}
+
+// =================================================================== A. core, tick level
+
+/// Tone channel `ch` alone at volume 15, period written as `tp` (R coarse also carries `high`
+/// in its unimplemented upper nibble). Judged on the raw output only.
+fn tone_case(ch: usize, tp: u16, high: u8, verbose: bool) -> Result<u64, Fail> {
+    guarded("tone:write_register/tick", || {
+        let mut ay = chip(false, 0, 44100);
+        ay.write_register(7, 0x3F & !(1u8 << ch));
+        ay.write_register(8 + ch as u8, 15);
+        ay.write_register(2 * ch as u8, tp as u8);
+        ay.write_register(2 * ch as u8 + 1, ((tp >> 8) as u8 & 0x0F) | (high & 0xF0));
+        let eff = (tp & 0xFFF).max(1) as usize;
+        let w = (8 * eff).max(4096);
+        let mut toggles: Vec<usize> = Vec::new();
+        let mut amp = 0.0f64;
+        let mut prev: Option<bool> = None;
+        for t in 0..w {
+            let (l, r) = ay.verif_tick();
+            if !(l.is_finite() && r.is_finite()) || l != r || l < 0.0 {
+                return Err((
+                    format!("C18:tone:raw-output-shape:ch{}", CH[ch]),
+                    format!("tone {} TP={} tick {}: raw mono output ({}, {}) is not a finite equal non-negative pair", CH[ch], tp, t, l, r),
+                ));
+            }
+            if l > 0.0 {
+                if amp == 0.0 {
+                    amp = l;
+                } else if l != amp {
+                    return Err((
+                        format!("C18:tone:not-two-level:ch{}", CH[ch]),
+                        format!("tone {} TP={} tick {}: third output level {} besides 0 and {}", CH[ch], tp, t, l, amp),
+                    ));
+                }
+            }
+            let hi = l > 0.0;
+            if let Some(p) = prev {
+                if p != hi {
+                    toggles.push(t);
+                }
+            }
+            prev = Some(hi);
+        }
+        let want = w / eff;
+        let cls = if tp & 0xFFF == 0 { "tp0-acts-as-1" } else { "general" };
+        if verbose {
+            println!("  channel {} TP written {} (effective {}), window {} ticks: {} output toggles, expected {} +-1; first toggles at {:?}", CH[ch], tp, eff, w, toggles.len(), want, &toggles[..toggles.len().min(6)]);
+        }
+        if (toggles.len() as i64 - want as i64).abs() > 1 {
+            return Err((
+                format!("C18:tone:toggle-count:{}:ch{}", cls, CH[ch]),
+                format!(
+                    "tone {} with TP={} (R{}={:02x} R{}={:02x}): {} output toggles in {} chip ticks (f_clk/8), f_clk/(16 TP) means {} +-1",
+                    CH[ch], tp, 2 * ch, tp as u8, 2 * ch + 1, ((tp >> 8) as u8 & 0x0F) | (high & 0xF0), toggles.len(), w, want
+                ),
+            ));
+        }
+        for p in toggles.windows(2) {
+            if p[1] - p[0] != eff {
+                return Err((
+                    format!("C18:tone:half-period:{}:ch{}", cls, CH[ch]),
+                    format!("tone {} with TP={}: half period of {} chip ticks between toggles at {} and {}, expected {}", CH[ch], tp, p[1] - p[0], p[0], p[1], eff),
+                ));
+            }
+        }
+        Ok(fnv_mix(fnv(&[1, ch as u8]), (toggles.len() as u64) << 16 | eff as u64))
+    })
+}
+
+/// Noise alone on channel A at volume 15. `np` is the byte written to R6.
+fn noise_case(np: u8, verbose: bool) -> Result<Option<u64>, Fail> {
+    guarded("noise:write_register/tick", || {
+        let eff = (np & 0x1F) as usize;
+        let mut ay = chip(false, 0, 44100);
+        ay.write_register(7, 0x37);
+        ay.write_register(8, 15);
+        ay.write_register(6, np);
+        let w = (512 * eff.max(1)).max(4096);
+        let mut shifts: Vec<usize> = Vec::new();
+        let mut out_changes: Vec<usize> = Vec::new();
+        let mut lfsr = ay.verif_levels().3;
+        let mut prev_out: Option<bool> = None;
+        let (mut seen_hi, mut seen_lo) = (false, false);
+        for t in 0..w {
+            let (l, _) = ay.verif_tick();
+            if !l.is_finite() {
+                return Err(("C18:noise:non-finite".into(), format!("R6={:02x} tick {}: raw output {}", np, t, l)));
+            }
+            let now = ay.verif_levels().3;
+            if now != lfsr {
+                shifts.push(t);
+                lfsr = now;
+            }
+            let hi = l > 0.0;
+            if hi {
+                seen_hi = true
+            } else {
+                seen_lo = true
+            }
+            if let Some(p) = prev_out {
+                if p != hi {
+                    out_changes.push(t);
+                }
+            }
+            prev_out = Some(hi);
+        }
+        if verbose {
+            println!("  R6={:02x} (NP {}): {} LFSR shifts in {} ticks, expected {} +-1; output changes {}", np, eff, shifts.len(), w, if eff > 0 { w / (2 * eff) } else { 0 }, out_changes.len());
+        }
+        if eff == 0 {
+            return Ok(None); // NP = 0 is not judged
+        }
+        let cls = if np & 0xE0 != 0 { "upper-bits-set" } else { "general" };
+        let want = w / (2 * eff);
+        if (shifts.len() as i64 - want as i64).abs() > 1 {
+            return Err((
+                format!("C18:noise:shift-count:{}", cls),
+                format!("R6={:02x} (NP={}): noise generator clocked {} times in {} chip ticks, f_clk/(16 NP) means {} +-1", np, eff, shifts.len(), w, want),
+            ));
+        }
+        for p in shifts.windows(2) {
+            if p[1] - p[0] != 2 * eff {
+                return Err((
+                    format!("C18:noise:shift-interval:{}", cls),
+                    format!("R6={:02x} (NP={}): {} chip ticks between two noise clocks, expected {}", np, eff, p[1] - p[0], 2 * eff),
+                ));
+            }
+        }
+        for c in out_changes.iter() {
+            if shifts.binary_search(c).is_err() {
+                return Err(("C18:noise:output-changes-between-clocks".into(), format!("R6={:02x}: output changes at tick {} without a noise clock", np, c)));
+            }
+        }
+        if !(seen_hi && seen_lo) || out_changes.len() < 8 {
+            return Err(("C18:noise:output-not-noisy".into(), format!("R6={:02x}: only {} output changes in {} noise clocks", np, out_changes.len(), shifts.len())));
+        }
+        Ok(Some(fnv_mix(fnv(&[2]), (shifts.len() as u64) << 8 | eff as u64)))
+    })
+}
+
+/// Documented level of envelope step `s` (0 = first step after the R13 write), 32 steps per ramp.
+fn env_pattern(shape: u8, s: usize) -> u8 {
+    let ramp = s / 32;
+    let i = (s % 32) as u8;
+    let decay = 31 - i;
+    let attack = i;
+    match shape & 0x0F {
+        0..=3 | 9 => {
+            if ramp == 0 {
+                decay
+            } else {
+                0
+            }
+        }
+        4..=7 | 15 => {
+            if ramp == 0 {
+                attack
+            } else {
+                0
+            }
+        }
+        8 => decay,
+        10 => {
+            if ramp % 2 == 0 {
+                decay
+            } else {
+                attack
+            }
+        }
+        11 => {
+            if ramp == 0 {
+                decay
+            } else {
+                31
+            }
+        }
+        12 => attack,
+        13 => {
+            if ramp == 0 {
+                attack
+            } else {
+                31
+            }
+        }
+        _ => {
+            if ramp % 2 == 0 {
+                attack
+            } else {
+                decay
+            }
+        }
+    }
+}
+
+const ENV_STEPS: usize = 100;
+
+fn env_case(ym: bool, shape: u8, ep: u16, verbose: bool) -> Result<u64, Fail> {
+    guarded("envelope:write_register/tick", || {
+        let mut ay = chip(ym, 0, 44100);
+        ay.write_register(7, 0x3F);
+        ay.write_register(8, 0x10);
+        ay.write_register(11, ep as u8);
+        ay.write_register(12, (ep >> 8) as u8);
+        ay.write_register(13, shape);
+        let epu = ep as usize;
+        let n = ENV_STEPS * epu;
+        let mut levels: Vec<u8> = Vec::with_capacity(n);
+        let mut amp_of: [Option<f64>; 32] = [None; 32];
+        for t in 0..n {
+            let (l, _) = ay.verif_tick();
+            let lv = ay.verif_levels().2;
+            if lv > 31 || !l.is_finite() {
+                return Err(("C18:env:level-out-of-range".into(), format!("shape {} EP {} tick {}: level {} output {}", shape, ep, t, lv, l)));
+            }
+            match amp_of[lv] {
+                None => amp_of[lv] = Some(l),
+                Some(a) if a == l => {}
+                Some(a) => {
+                    return Err((
+                        "C18:env:amplitude-follows-level".into(),
+                        format!("shape {} EP {} tick {}: envelope level {} gives output {} here and {} earlier", shape, ep, t, lv, l, a),
+                    ))
+                }
+            }
+            levels.push(lv as u8);
+        }
+        // constant phase of the step grid is not judged: accept any offset 0..=EP
+        let first_change = levels.iter().position(|x| *x != levels[0]);
+        let mut cands = vec![0usize, 1, 2, epu];
+        if let Some(tc) = first_change {
+            cands.push((epu - tc % epu) % epu);
+        }
+        cands.retain(|c| *c <= epu);
+        cands.sort();
+        cands.dedup();
+        let mut best: Option<(usize, usize)> = None; // (phase, first mismatch)
+        let mut ok = false;
+        for ph in cands.iter() {
+            let mm = (0..n).find(|t| levels[*t] != env_pattern(shape, (t + ph) / epu));
+            match mm {
+                None => {
+                    ok = true;
+                    best = Some((*ph, n));
+                    break;
+                }
+                Some(t) => {
+                    if best.map_or(true, |b| t > b.1) {
+                        best = Some((*ph, t));
+                    }
+                }
+            }
+        }
+        // per-step read-out for humans
+        let seq: Vec<u8> = (0..ENV_STEPS.min(72)).map(|s| levels[(s * epu + epu / 2).min(n - 1)]).collect();
+        if verbose {
+            println!("  shape {:2} EP {:5} chip {}: level at mid-step: {:?}", shape & 15, ep, if ym { "YM" } else { "AY" }, seq);
+            println!("                              documented:        {:?}", (0..72).map(|s| env_pattern(shape, s)).collect::<Vec<_>>());
+        }
+        if !ok {
+            let (ph, t) = best.unwrap();
+            return Err((
+                format!("C18:env:shape-pattern:shape{:02}", shape & 0x0F),
+                format!(
+                    "R13={:02x} EP={}: level at chip tick {} (step {}) is {}, documented pattern has {}; levels at mid-step {:?}",
+                    shape,
+                    ep,
+                    t,
+                    (t + ph) / epu,
+                    levels[t],
+                    env_pattern(shape, (t + ph) / epu),
+                    &seq[..seq.len().min(70)]
+                ),
+            ));
+        }
+        // amplitude follows the level: non-decreasing, and the ends differ
+        let mut last = -1.0f64;
+        for lv in 0..32 {
+            if let Some(a) = amp_of[lv] {
+                if a < last {
+                    return Err(("C18:env:amplitude-follows-level".into(), format!("shape {} EP {}: output at level {} ({}) is below the output of a lower level ({})", shape, ep, lv, a, last)));
+                }
+                last = a;
+            }
+        }
+        if let (Some(lo), Some(hi)) = (amp_of[0], amp_of[31]) {
+            if !(hi > lo) {
+                return Err(("C18:env:amplitude-follows-level".into(), format!("shape {} EP {}: level 31 output {} not above level 0 output {}", shape, ep, hi, lo)));
+            }
+        }
+        Ok(fnv_mix(fnv(&levels[..(64 * epu).min(n)].iter().step_by(epu).copied().collect::<Vec<u8>>()), ym as u64))
+    })
+}
+
+const MIX_TICKS: usize = 3000;
+
+fn mixer_wave(ch: usize, r7: u8) -> Vec<bool> {
+    let mut ay = chip(false, 0, 44100);
+    ay.write_register(2 * ch as u8, 5);
+    ay.write_register(6, 3);
+    ay.write_register(8 + ch as u8, 15);
+    ay.write_register(7, r7);
+    (0..MIX_TICKS).map(|_| ay.verif_tick().0 > 0.0).collect()
+}
+
+/// All R7 values for channel `ch`; expectation built from the measured tone-only and noise-only
+/// waveforms of the same channel (same write sequence, so identical generator phases).
+fn mixer_case(ch: usize, r7: u8, verbose: bool) -> Result<u64, Fail> {
+    guarded("mixer:write_register/tick", || {
+        let tone_only = mixer_wave(ch, 0x3F & !(1 << ch));
+        let noise_only = mixer_wave(ch, 0x3F & !(8 << ch));
+        let mut combos = [false; 4];
+        for t in 0..MIX_TICKS {
+            combos[(tone_only[t] as usize) | (noise_only[t] as usize) << 1] = true;
+        }
+        if combos.iter().any(|c| !*c) {
+            return Err(("C18:mixer:vacuous-window".into(), format!("channel {}: tone/noise level combinations seen {:?}", CH[ch], combos)));
+        }
+        let toff = (r7 >> ch) & 1 == 1;
+        let noff = (r7 >> (3 + ch)) & 1 == 1;
+        let got = mixer_wave(ch, r7);
+        let mut h = fnv(&[3, ch as u8, toff as u8, noff as u8]);
+        for t in 0..MIX_TICKS {
+            let want = (tone_only[t] | toff) & (noise_only[t] | noff);
+            if got[t] != want {
+                return Err((
+                    format!("C18:mixer:gating:ch{}", CH[ch]),
+                    format!(
+                        "R7={:02x}, channel {} (tone {}, noise {}): output {} at tick {} while tone={} noise={}; a disabled source counts as high",
+                        r7,
+                        CH[ch],
+                        if toff { "off" } else { "on" },
+                        if noff { "off" } else { "on" },
+                        got[t] as u8,
+                        t,
+                        tone_only[t] as u8,
+                        noise_only[t] as u8
+                    ),
+                ));
+            }
+            if t < 64 {
+                h = fnv_mix(h, got[t] as u64);
+            }
+        }
+        if verbose {
+            println!("  R7={:02x} channel {}: first 48 ticks {:?}", r7, CH[ch], got[..48].iter().map(|b| *b as u8).collect::<Vec<_>>());
+        }
+        Ok(h)
+    })
+}
+
+fn dc_level(ym: bool, mode: u8, ch: usize, vol_reg: u8, env: Option<u8>) -> (f64, f64) {
+    let mut ay = chip(ym, mode, 44100);
+    ay.write_register(7, 0x3F);
+    ay.write_register(11, 1);
+    ay.write_register(12, 0);
+    ay.write_register(8 + ch as u8, vol_reg);
+    if let Some(s) = env {
+        ay.write_register(13, s);
+    }
+    let mut last = (0.0, 0.0);
+    for _ in 0..80 {
+        last = ay.verif_tick();
+    }
+    last
+}
+
+fn volume_case(ym: bool, ch: usize, verbose: bool) -> Result<u64, Fail> {
+    guarded("volume:write_register/tick", || {
+        let chipn = if ym { "ym" } else { "ay" };
+        let fixed: Vec<f64> = (0..16u8).map(|v| dc_level(ym, 0, ch, v, None).0).collect();
+        if verbose {
+            println!("  chip {} channel {}: amplitude per volume 0..15 = {:?}", chipn, CH[ch], fixed);
+        }
+        for v in 1..16 {
+            if !(fixed[v] > fixed[v - 1]) || !fixed[v].is_finite() {
+                return Err((
+                    format!("C18:volume:not-strictly-increasing:{}", chipn),
+                    format!("channel {}: amplitude at volume {} is {}, at volume {} it is {}", CH[ch], v - 1, fixed[v - 1], v, fixed[v]),
+                ));
+            }
+        }
+        let mut h = fnv(&[4, ym as u8, ch as u8]);
+        for reg in 0..=255u8 {
+            if reg & 0x10 == 0 {
+                let a = dc_level(ym, 0, ch, reg, Some(0x0D)).0;
+                if a != fixed[(reg & 0x0F) as usize] {
+                    return Err((
+                        format!("C18:volume:fixed-level:{}:{}", chipn, if reg & 0xE0 != 0 { "upper-bits-set" } else { "general" }),
+                        format!("channel {} R{}={:02x}: amplitude {} differs from the volume-{} amplitude {}", CH[ch], 8 + ch, reg, a, reg & 15, fixed[(reg & 15) as usize]),
+                    ));
+                }
+            } else {
+                // envelope mode: held high (shape 13) = full amplitude, held low (shape 9) = lowest
+                let hi = dc_level(ym, 0, ch, reg, Some(0x0D)).0;
+                let lo = dc_level(ym, 0, ch, reg, Some(0x09)).0;
+                if hi != fixed[15] || lo > fixed[0] {
+                    return Err((
+                        format!("C18:volume:bit4-envelope:{}:{}", chipn, if reg & 0xE0 != 0 { "upper-bits-set" } else { "general" }),
+                        format!(
+                            "channel {} R{}={:02x}: with the envelope held high the amplitude is {} (volume 15 = {}), held low {} (volume 0 = {})",
+                            CH[ch], 8 + ch, reg, hi, fixed[15], lo, fixed[0]
+                        ),
+                    ));
+                }
+            }
+            h = fnv_mix(h, reg as u64);
+        }
+        Ok(fnv_mix(h, fixed[7].to_bits()))
+    })
+}
+
+/// Position of channel `ch` in stereo mode `mode`: -1 left, 0 centre, 1 right (first letter of
+/// the mode name is the left channel, the middle letter the centre, the last the right one).
+fn placement(mode: u8, ch: usize) -> i32 {
+    if mode == 0 {
+        return 0;
+    }
+    let name = MODE_NAMES[mode as usize].as_bytes();
+    let pos = name.iter().position(|c| *c == b'A' + ch as u8).unwrap();
+    pos as i32 - 1
+}
+
+fn pan_case(ym: bool, mode: u8, ch: usize, verbose: bool) -> Result<u64, Fail> {
+    guarded("pan:new/tick", || {
+        let (l, r) = dc_level(ym, mode, ch, 15, None);
+        let want = placement(mode, ch);
+        let got = if l > r {
+            -1
+        } else if l < r {
+            1
+        } else {
+            0
+        };
+        if verbose {
+            println!("  mode {} channel {}: left gain {}, right gain {} (placement wanted {})", MODE_NAMES[mode as usize], CH[ch], l, r, want);
+        }
+        let sane = l.is_finite() && r.is_finite() && l >= 0.0 && r >= 0.0 && l + r > 0.0;
+        if got != want || !sane {
+            return Err((
+                format!("C18:pan:{}:ch{}", MODE_NAMES[mode as usize], CH[ch]),
+                format!(
+                    "stereo mode {}: channel {} has left gain {} and right gain {}, the mode places it {}",
+                    MODE_NAMES[mode as usize],
+                    CH[ch],
+                    l,
+                    r,
+                    ["left", "centre", "right"][(want + 1) as usize]
+                ),
+            ));
+        }
+        Ok(fnv_mix(fnv(&[5, mode, ch as u8]), l.to_bits() ^ r.to_bits().rotate_left(7)))
+    })
+}
+
+fn core_checks(ctx: &Ctx, col: &Collector) {
+    // tones
+    let mut tone_jobs: Vec<(usize, u16, u8)> = Vec::new();
+    for ch in 0..3 {
+        for tp in 0..=4095u16 {
+            let pick = ctx.thorough() || tp < 64 || tp > 4032 || tp % 7 == 0;
+            if pick {
+                tone_jobs.push((ch, tp, 0));
+            }
+        }
+        for tp in [0u16, 1, 0x0FF, 0x100, 0x5A5] {
+            for high in [0x10u8, 0xF0] {
+                tone_jobs.push((ch, tp, high));
+            }
+        }
+    }
+    par_for(tone_jobs.len(), 8, |i| {
+        let (ch, tp, high) = tone_jobs[i];
+        match tone_case(ch, tp, high, false) {
+            Ok(h) => ctx.outcome(h),
+            Err(f) => col.fail((10, tp as u64, (ch as u64) << 8 | high as u64), &f.0, &f.1, || json!({"kind":"tone","ch":ch,"tp":tp,"high":high})),
+        }
+        ctx.add_eval(1);
+    });
+    ctx.note("core_tone_cases", json!(tone_jobs.len()));
+    // noise
+    let noise_vals: Vec<u8> = if ctx.thorough() { (0..=255u8).collect() } else { (0..=31u8).chain(0xE0..=0xFF).collect() };
+    par_for(noise_vals.len(), 1, |i| {
+        let np = noise_vals[i];
+        match noise_case(np, false) {
+            Ok(Some(h)) => ctx.outcome(h),
+            Ok(None) => ctx.note_add("noise_np0_not_judged", 1),
+            Err(f) => col.fail((11, np as u64, 0), &f.0, &f.1, || json!({"kind":"noise","np":np})),
+        }
+        ctx.add_eval(1);
+    });
+    // envelope
+    let mut env_jobs: Vec<(bool, u8, u16)> = Vec::new();
+    for ym in [false, true] {
+        for shape in 0..16u8 {
+            for ep in [1u16, 2, 3, 255, 256, 4095, 65535] {
+                if ym && !ctx.thorough() && ep > 4095 {
+                    continue;
+                }
+                env_jobs.push((ym, shape, ep));
+            }
+        }
+    }
+    if ctx.thorough() {
+        for shape in 16..=255u8 {
+            env_jobs.push((false, shape, 3));
+        }
+    }
+    env_jobs.sort_by_key(|j| std::cmp::Reverse(j.2));
+    par_for(env_jobs.len(), 1, |i| {
+        let (ym, shape, ep) = env_jobs[i];
+        match env_case(ym, shape, ep, false) {
+            Ok(h) => ctx.outcome(h),
+            Err(f) => col.fail((12, ep as u64, (shape as u64) << 1 | ym as u64), &f.0, &f.1, || json!({"kind":"env","ym":ym,"shape":shape,"ep":ep})),
+        }
+        ctx.add_eval(1);
+    });
+    ctx.note("core_envelope_cases", json!(env_jobs.len()));
+    // mixer
+    par_for(3 * 256, 4, |i| {
+        let (ch, r7) = (i / 256, (i % 256) as u8);
+        match mixer_case(ch, r7, false) {
+            Ok(h) => ctx.outcome(h),
+            Err(f) => col.fail((13, r7 as u64, ch as u64), &f.0, &f.1, || json!({"kind":"mixer","ch":ch,"r7":r7})),
+        }
+        ctx.add_eval(1);
+    });
+    // volume, pan
+    par_for(6, 1, |i| {
+        let (ym, ch) = (i / 3 == 1, i % 3);
+        match volume_case(ym, ch, false) {
+            Ok(h) => ctx.outcome(h),
+            Err(f) => col.fail((14, i as u64, 0), &f.0, &f.1, || json!({"kind":"volume","ym":ym,"ch":ch})),
+        }
+        ctx.add_eval(256 + 16);
+    });
+    for ym in [false, true] {
+        for mode in 0..7u8 {
+            for ch in 0..3 {
+                match pan_case(ym, mode, ch, false) {
+                    Ok(h) => ctx.outcome(h),
+                    Err(f) => col.fail((15, mode as u64, ch as u64), &f.0, &f.1, || json!({"kind":"pan","ym":ym,"mode":mode,"ch":ch})),
+                }
+                ctx.add_eval(1);
+            }
+        }
+    }
+    ctx.sample(json!({"part":"core","example":"tone B TP=440","result": format!("{:?}", tone_case(1, 440, 0, false).is_ok())}));
+    ctx.sample(json!({"part":"core","example":"documented level per step, shape 10","levels": (0..70).map(|s| env_pattern(10, s)).collect::<Vec<_>>() }));
+}
+
+// =================================================================== B. public API, analog path
+
+const RATES: [usize; 12] = [8000, 11025, 16000, 22050, 27709, 27710, 32000, 44100, 48000, 96000, 192000, 384000];
+const PROGRAMMES: [&str; 4] = ["silence", "one-tone", "three-tones+noise+envelope", "dc-volume-15"];
+
+fn programme(ay: &mut AymPrecise, p: usize) {
+    let w: &[(u8, u8)] = match p {
+        0 => &[(7, 0x3F), (8, 0), (9, 0), (10, 0)],
+        1 => &[(0, 100), (1, 0), (7, 0x3E), (8, 15)],
+        2 => &[(0, 100), (1, 0), (2, 251), (3, 0), (4, 0xE8), (5, 3), (6, 5), (7, 0), (8, 0x10), (9, 0x0F), (10, 0x0A), (11, 0x2C), (12, 1), (13, 0x0E)],
+        _ => &[(7, 0x3F), (8, 15), (9, 15), (10, 15)],
+    };
+    for (r, v) in w {
+        ay.write_register(*r, *v);
+    }
+}
+
+fn rate_class(rate: usize) -> &'static str {
+    // the chip core runs at f_clk/8 and the resampler produces 8 sub-samples per output sample
+    if rate * 64 < FCLK {
+        "rate-below-fclk/64"
+    } else {
+        "rate-at-least-fclk/64"
+    }
+}
+
+fn api_bounded_case(rate: usize, p: usize, millis: usize, verbose: bool) -> Result<u64, Fail> {
+    guarded("api:next_sample", || {
+        let mut ay = chip(false, 1, rate);
+        programme(&mut ay, p);
+        let n = rate * millis / 1000;
+        let mut maxabs = 0.0f64;
+        let mut first_bad: Option<(usize, f64, f64)> = None;
+        let mut h = fnv(&[6, p as u8]);
+        for i in 0..n {
+            let s = ay.next_sample();
+            if !(s.left.is_finite() && s.right.is_finite()) {
+                return Err((
+                    format!("C18:api:non-finite:{}", rate_class(rate)),
+                    format!("sample rate {}, programme {}: sample {} is ({}, {})", rate, PROGRAMMES[p], i, s.left, s.right),
+                ));
+            }
+            let m = s.left.abs().max(s.right.abs());
+            if m > maxabs {
+                maxabs = m;
+            }
+            if m > BOUND && first_bad.is_none() {
+                first_bad = Some((i, s.left, s.right));
+            }
+            if i % 997 == 0 {
+                h = fnv_mix(h, (s.left * 1024.0) as i64 as u64);
+            }
+        }
+        if verbose {
+            println!("  rate {} programme {}: {} samples, max |s| = {:e}", rate, PROGRAMMES[p], n, maxabs);
+        }
+        if let Some((i, l, r)) = first_bad {
+            return Err((
+                format!("C18:api:unbounded:{}", rate_class(rate)),
+                format!(
+                    "sample rate {} Hz (f_clk/64 = {:.1}), programme {}: sample {} is ({:e}, {:e}); largest magnitude in {} ms is {:e} (bound {})",
+                    rate,
+                    FCLK as f64 / 64.0,
+                    PROGRAMMES[p],
+                    i,
+                    l,
+                    r,
+                    millis,
+                    maxabs,
+                    BOUND
+                ),
+            ));
+        }
+        Ok(fnv_mix(h, rate as u64))
+    })
+}
+
+/// Frequency of a single tone from hysteresis threshold crossings of the left channel.
+fn api_tone_case(rate: usize, tp: u16, millis: usize, verbose: bool) -> Result<Option<u64>, Fail> {
+    guarded("api:next_sample", || {
+        let f = FCLK as f64 / (16.0 * tp as f64);
+        // judged only where the tone is representable with 10 % margin in both sampling stages:
+        // the output rate and the chip model's own tick rate f_clk/8 (TP=1 sits exactly on the
+        // tick-rate Nyquist and is rendered as its mean level by the band-limiting interpolator)
+        if f >= 0.45 * rate as f64 || f >= 0.45 * FCLK as f64 / 8.0 {
+            return Ok(None);
+        }
+        let mut ay = chip(false, 0, rate);
+        ay.write_register(0, tp as u8);
+        ay.write_register(1, (tp >> 8) as u8);
+        ay.write_register(7, 0x3E);
+        ay.write_register(8, 15);
+        let n = rate * millis / 1000;
+        let skip = 256.min(n / 4); // filter start-up
+        let mut v: Vec<f64> = Vec::with_capacity(n);
+        for _ in 0..n {
+            v.push(ay.next_sample().left);
+        }
+        let body = &v[skip..];
+        if body.iter().any(|x| !x.is_finite()) {
+            return Err((format!("C18:api:non-finite:{}", rate_class(rate)), format!("rate {} TP {}: non-finite sample", rate, tp)));
+        }
+        let (mn, mx) = body.iter().fold((f64::MAX, f64::MIN), |a, x| (a.0.min(*x), a.1.max(*x)));
+        let mid = (mn + mx) / 2.0;
+        let hyst = (mx - mn) * 0.1;
+        let mut state: Option<bool> = None;
+        let mut crossings: Vec<usize> = Vec::new();
+        for (i, x) in body.iter().enumerate() {
+            let s = if *x > mid + hyst {
+                Some(true)
+            } else if *x < mid - hyst {
+                Some(false)
+            } else {
+                None
+            };
+            if let Some(s) = s {
+                if let Some(p) = state {
+                    if p != s {
+                        crossings.push(i);
+                    }
+                }
+                state = Some(s);
+            }
+        }
+        let est = if crossings.len() >= 3 {
+            (crossings.len() - 1) as f64 / 2.0 / ((crossings[crossings.len() - 1] - crossings[0]) as f64 / rate as f64)
+        } else {
+            0.0
+        };
+        if verbose {
+            println!("  rate {} TP {}: {} crossings in {} samples, measured {:.3} Hz, f_clk/(16 TP) = {:.3} Hz, swing {:e}..{:e}", rate, tp, crossings.len(), body.len(), est, f, mn, mx);
+        }
+        if crossings.len() < 3 || ((est - f) / f).abs() > 0.01 {
+            return Err((
+                format!("C18:api:tone-frequency:{}", rate_class(rate)),
+                format!(
+                    "sample rate {} Hz, tone A TP={}: measured {:.2} Hz from {} threshold crossings over {} ms, f_clk/(16 TP) = {:.2} Hz",
+                    rate,
+                    tp,
+                    est,
+                    crossings.len(),
+                    millis,
+                    f
+                ),
+            ));
+        }
+        Ok(Some(fnv_mix(fnv(&[7]), (rate as u64) << 16 | tp as u64)))
+    })
+}
+
+const API_TPS: [u16; 7] = [1, 2, 3, 10, 100, 1000, 4095];
+
+fn api_checks(ctx: &Ctx, col: &Collector) {
+    let millis = if ctx.thorough() { 2000 } else { 250 };
+    let skipped = std::sync::atomic::AtomicU64::new(0);
+    let jobs: Vec<(usize, usize)> = (0..RATES.len()).flat_map(|r| (0..PROGRAMMES.len() + API_TPS.len()).map(move |p| (r, p))).collect();
+    par_for(jobs.len(), 1, |i| {
+        let (ri, p) = jobs[i];
+        let rate = RATES[ri];
+        if p < PROGRAMMES.len() {
+            match api_bounded_case(rate, p, millis, false) {
+                Ok(h) => ctx.outcome(h),
+                Err(f) => col.fail((20, ri as u64, p as u64), &f.0, &f.1, || json!({"kind":"api-bounded","rate":rate,"programme":p,"millis":millis})),
+            }
+        } else {
+            let tp = API_TPS[p - PROGRAMMES.len()];
+            match api_tone_case(rate, tp, millis, false) {
+                Ok(Some(h)) => ctx.outcome(h),
+                Ok(None) => {
+                    skipped.fetch_add(1, std::sync::atomic::Ordering::Relaxed);
+                }
+                Err(f) => col.fail((21, ri as u64, tp as u64), &f.0, &f.1, || json!({"kind":"api-tone","rate":rate,"tp":tp,"millis":millis})),
+            }
+        }
+        ctx.add_eval(1);
+    });
+    ctx.note("api_tone_cases_not_judged_at_or_above_0.45_of_output_rate_or_chip_tick_rate", json!(skipped.into_inner()));
+    ctx.note("api_milliseconds_per_case", json!(millis));
+}
+
+// =================================================================== C. histories
+
+#[derive(Clone, Copy, Debug, PartialEq, Eq)]
+enum Op {
+    W(u8, u8),
+    G(u16),
+}
+
+const VALS: [u8; 6] = [0x00, 0x01, 0x0F, 0x10, 0x1F, 0xFF];
+
+fn full_alphabet() -> Vec<Op> {
+    let mut v = Vec::new();
+    for r in 0..16u8 {
+        for x in VALS {
+            v.push(Op::W(r, x));
+        }
+    }
+    v.extend([Op::G(1), Op::G(7), Op::G(1000)]);
+    v
+}
+
+/// One or two representatives per register role, all three generate lengths.
+fn reduced_alphabet() -> Vec<Op> {
+    vec![
+        Op::W(0, 0x00),
+        Op::W(0, 0x1F),
+        Op::W(1, 0x01),
+        Op::W(2, 0x01),
+        Op::W(6, 0x00),
+        Op::W(6, 0x1F),
+        Op::W(7, 0x00),
+        Op::W(7, 0xFF),
+        Op::W(7, 0x0F),
+        Op::W(8, 0x0F),
+        Op::W(8, 0x10),
+        Op::W(9, 0x1F),
+        Op::W(11, 0x00),
+        Op::W(11, 0x0F),
+        Op::W(12, 0x01),
+        Op::W(13, 0x00),
+        Op::W(13, 0x0F),
+        Op::W(13, 0xFF),
+        Op::W(13, 0x10),
+        Op::W(14, 0xFF),
+        Op::W(15, 0x01),
+        Op::G(1),
+        Op::G(7),
+        Op::G(1000),
+    ]
+}
+
+fn ops_json(ops: &[Op]) -> Value {
+    Value::Array(
+        ops.iter()
+            .map(|o| match o {
+                Op::W(r, v) => json!({"w":[r, v]}),
+                Op::G(n) => json!({"g": n}),
+            })
+            .collect(),
+    )
+}
+
+fn ops_from(v: &Value) -> Vec<Op> {
+    v.as_array()
+        .map(|a| {
+            a.iter()
+                .map(|o| {
+                    if let Some(w) = o.get("w") {
+                        Op::W(w[0].as_u64().unwrap() as u8, w[1].as_u64().unwrap() as u8)
+                    } else {
+                        Op::G(o["g"].as_u64().unwrap() as u16)
+                    }
+                })
+                .collect()
+        })
+        .unwrap_or_default()
+}
+
+/// Amplitudes and gains measured once on fresh chips (mode ABC, chip AY).
+struct Tables {
+    fixed: [f64; 16],
+    env: [f64; 32],
+    gl: [f64; 3],
+    gr: [f64; 3],
+}
+
+fn measure_tables() -> Tables {
+    let mut t = Tables { fixed: [0.0; 16], env: [0.0; 32], gl: [0.0; 3], gr: [0.0; 3] };
+    // channel B is the centre in ABC: both gains equal, relative amplitudes come from there
+    let full = dc_level(false, 1, 1, 15, None).0;
+    for v in 0..16u8 {
+        t.fixed[v as usize] = dc_level(false, 1, 1, v, None).0 / full;
+    }
+    // envelope levels: attack ramp, EP=1
+    let mut ay = chip(false, 1, 44100);
+    ay.write_register(7, 0x3F);
+    ay.write_register(9, 0x10);
+    ay.write_register(11, 1);
+    for shape in [0x0Du8, 0x09] {
+        ay.write_register(13, shape);
+        for _ in 0..40 {
+            let (l, _) = ay.verif_tick();
+            t.env[ay.verif_levels().2] = l / full;
+        }
+    }
+    for ch in 0..3 {
+        let (l, r) = dc_level(false, 1, ch, 15, None);
+        t.gl[ch] = l;
+        t.gr[ch] = r;
+    }
+    t
+}
+
+const POST_TICKS: usize = 2048;
+
+struct HistOut {
+    digest: u64,
+    nontrivial: bool,
+}
+
+fn hist_case(ops: &[Op], tb: &Tables, verbose: bool) -> Result<HistOut, Fail> {
+    let res = catch_unwind(AssertUnwindSafe(|| -> Result<HistOut, Fail> {
+        let mut ay = chip(false, 1, 44100);
+        let mut regs = [0u8; 16];
+        let mut written = [false; 16];
+        let mut gens = 0usize;
+        for (i, op) in ops.iter().enumerate() {
+            match *op {
+                Op::W(r, v) => {
+                    ay.write_register(r, v);
+                    regs[r as usize] = v;
+                    written[r as usize] = true;
+                }
+                Op::G(n) => {
+                    gens += 1;
+                    for k in 0..n {
+                        let s = ay.next_sample();
+                        if !(s.left.is_finite() && s.right.is_finite()) || s.left.abs() > BOUND || s.right.abs() > BOUND {
+                            return Err((
+                                "C18:hist:sample-unbounded".into(),
+                                format!("history {:?}: sample {} of operation {} is ({:e}, {:e})", ops, k, i, s.left, s.right),
+                            ));
+                        }
+                    }
+                }
+            }
+        }
+        // ---- observe the chip core after the history
+        let tp: [usize; 3] = [0, 1, 2].map(|c| ((regs[2 * c] as usize) | ((regs[2 * c + 1] & 0x0F) as usize) << 8).max(1));
+        let np = (regs[6] & 0x1F) as usize;
+        let ep = regs[11] as usize | (regs[12] as usize) << 8;
+        let lv0 = ay.verif_levels();
+        let mut last_tone = lv0.0;
+        let mut last_lfsr = lv0.3;
+        let mut last_env = lv0.2;
+        let mut tone_t: [Option<usize>; 3] = [None; 3];
+        let mut noise_t: Option<usize> = None;
+        let mut env_t: Option<usize> = None;
+        let mut digest = fnv(&[8]);
+        let mut first64: Vec<u64> = Vec::with_capacity(130);
+        let mut judged = 0u32;
+        for t in 0..POST_TICKS {
+            let (l, r) = ay.verif_tick();
+            let lv = ay.verif_levels();
+            if t < 64 {
+                first64.push(l.to_bits());
+                first64.push(r.to_bits());
+            }
+            // (d) output = gated sum defined by the final register file
+            let (mut el, mut er) = (0.0f64, 0.0f64);
+            for c in 0..3 {
+                let toff = (regs[7] >> c) & 1 == 1;
+                let noff = (regs[7] >> (3 + c)) & 1 == 1;
+                let gate = ((lv.0[c] == 1) | toff) & ((lv.1 == 1) | noff);
+                if gate {
+                    let a = if regs[8 + c] & 0x10 != 0 { tb.env[lv.2] } else { tb.fixed[(regs[8 + c] & 0x0F) as usize] };
+                    el += a * tb.gl[c];
+                    er += a * tb.gr[c];
+                }
+            }
+            if (l - el).abs() > 1e-9 || (r - er).abs() > 1e-9 || !l.is_finite() || !r.is_finite() {
+                return Err((
+                    "C18:hist:output-vs-final-registers".into(),
+                    format!(
+                        "history {:?}: {} ticks later the raw output is ({}, {}), the final register file {:02x?} with tone bits {:?}, noise bit {}, envelope level {} defines ({}, {})",
+                        ops, t + 1, l, r, &regs[..14], lv.0, lv.1, lv.2, el, er
+                    ),
+                ));
+            }
+            // (a) tone half periods
+            for c in 0..3 {
+                if lv.0[c] != last_tone[c] {
+                    if let Some(p) = tone_t[c] {
+                        judged += 1;
+                        if t - p != tp[c] {
+                            return Err((
+                                format!("C18:hist:tone-period-after-history:ch{}", CH[c]),
+                                format!("history {:?}: tone {} toggles {} ticks apart, final registers give TP={}", ops, CH[c], t - p, tp[c]),
+                            ));
+                        }
+                    }
+                    tone_t[c] = Some(t);
+                    last_tone[c] = lv.0[c];
+                }
+            }
+            // (b) noise clock
+            if lv.3 != last_lfsr {
+                if let Some(p) = noise_t {
+                    if written[6] && np >= 1 {
+                        judged += 1;
+                        if t - p != 2 * np {
+                            return Err((
+                                "C18:hist:noise-period-after-history".into(),
+                                format!("history {:?}: noise clocks {} ticks apart, final R6 gives NP={}", ops, t - p, np),
+                            ));
+                        }
+                    }
+                }
+                noise_t = Some(t);
+                last_lfsr = lv.3;
+            }
+            // (c) envelope step grid
+            if lv.2 != last_env {
+                if let Some(p) = env_t {
+                    if ep >= 1 {
+                        judged += 1;
+                        if (t - p) % ep != 0 {
+                            return Err((
+                                "C18:hist:envelope-period-after-history".into(),
+                                format!("history {:?}: envelope level changes {} ticks apart, final R11/R12 give EP={}", ops, t - p, ep),
+                            ));
+                        }
+                    }
+                }
+                env_t = Some(t);
+                last_env = lv.2;
+            }
+        }
+        for x in first64.iter() {
+            digest = fnv_mix(digest, *x);
+        }
+        digest = fnv_mix(digest, lv0.3 as u64 ^ (lv0.2 as u64) << 20);
+        // ---- write-order independence (no samples generated, R13 untouched)
+        let writes: Vec<(u8, u8)> = ops.iter().filter_map(|o| if let Op::W(r, v) = o { Some((*r, *v)) } else { None }).collect();
+        if gens == 0 && !written[13] && writes.len() >= 2 {
+            let mut canon = chip(false, 1, 44100);
+            for r in 0..16u8 {
+                if written[r as usize] {
+                    canon.write_register(r, regs[r as usize]);
+                }
+            }
+            let c0 = canon.verif_levels();
+            let mut same = c0 == lv0;
+            for i in 0..64 {
+                let (l, r) = canon.verif_tick();
+                if l.to_bits() != first64[2 * i] || r.to_bits() != first64[2 * i + 1] {
+                    same = false;
+                }
+            }
+            if !same {
+                return Err((
+                    "C18:hist:write-order-dependence".into(),
+                    format!("history {:?} (writes only, no R13): the next 64 chip ticks differ from those after writing the same final values {:02x?} in register order", ops, &regs[..14]),
+                ));
+            }
+        }
+        if verbose {
+            println!("  history {:?}", ops);
+            println!("  final registers {:02x?}; TP {:?} NP {} EP {}; {} period judgements in {} ticks; digest {:016x}", &regs[..14], tp, np, ep, judged, POST_TICKS, digest);
+        }
+        Ok(HistOut { digest, nontrivial: judged > 0 })
+    }));
+    let entry = "write_register/next_sample";
+    match res {
+        Ok(r) => r,
+        Err(p) => Err((
+            format!("C18:hist:panic:{}:{}", entry, panic_shape(&p)),
+            format!("history {:?}: AymPrecise panicked: {}", ops, panic_shape(&p)),
+        )),
+    }
+}
+
+struct Worker<'a> {
+    set: HashSet<u64>,
+    sink: &'a Mutex<HashSet<u64>>,
+}
+impl<'a> Drop for Worker<'a> {
+    fn drop(&mut self) {
+        let mut g = self.sink.lock().unwrap();
+        for h in self.set.drain() {
+            if g.len() < 4_000_000 {
+                g.insert(h);
+            }
+        }
+    }
+}
+
+fn decode_history(mut idx: u64, len: usize, alpha: &[Op], out: &mut Vec<Op>) {
+    out.clear();
+    for _ in 0..len {
+        out.push(alpha[(idx % alpha.len() as u64) as usize]);
+        idx /= alpha.len() as u64;
+    }
+    out.reverse();
+}
+
+fn history_search(ctx: &Ctx, col: &Collector, name: &str, alpha: &[Op], depth: usize, order_base: u64) {
+    let tb = measure_tables();
+    let sink: Mutex<HashSet<u64>> = Mutex::new(HashSet::new());
+    let n = alpha.len() as u64;
+    let mut total = 0u64;
+    for len in 0..=depth {
+        let count = n.pow(len as u32);
+        total += count;
+        let chunk = 256usize;
+        let jobs = ((count + chunk as u64 - 1) / chunk as u64) as usize;
+        par_for_with(
+            jobs,
+            1,
+            || (Worker { set: HashSet::new(), sink: &sink }, Vec::<Op>::new()),
+            |st, j| {
+                let (w, ops) = st;
+                let s = j as u64 * chunk as u64;
+                let e = (s + chunk as u64).min(count);
+                let mut nontrivial = 0;
+                for idx in s..e {
+                    decode_history(idx, len, alpha, ops);
+                    match hist_case(ops, &tb, false) {
+                        Ok(o) => {
+                            w.set.insert(o.digest);
+                            nontrivial += o.nontrivial as u64;
+                        }
+                        Err(f) => col.fail((order_base + len as u64, idx, 0), &f.0, &f.1, || json!({"kind":"hist","ops":ops_json(ops)})),
+                    }
+                }
+                ctx.add_transitions(e - s);
+                ctx.add_traces(e - s);
+                ctx.add_nontrivial(nontrivial);
+            },
+        );
+    }
+    let states = sink.into_inner().unwrap();
+    ctx.add_states(states.len() as u64);
+    let mut k = 0;
+    for h in states.iter() {
+        ctx.outcome(*h);
+        k += 1;
+        if k > 200_000 {
+            break;
+        }
+    }
+    ctx.note(&format!("hist_{}_alphabet_size", name), json!(alpha.len()));
+    ctx.note(&format!("hist_{}_depth", name), json!(depth));
+    ctx.note(&format!("hist_{}_histories", name), json!(total));
+    ctx.note(&format!("hist_{}_distinct_core_behaviours", name), json!(states.len()));
+}
+
+// =================================================================== D. ports
+
+const CODE: u16 = 0x8100;
+
+fn reg_mask(r: u8) -> u8 {
+    match r & 0x0F {
+        1 | 3 | 5 | 13 => 0x0F,
+        6 | 8 | 9 | 10 => 0x1F,
+        _ => 0xFF,
+    }
+}
+
+fn port_emu(m128: bool) -> rig::Emu {
+    let o = if m128 { Opts::k128() } else { Opts { ay: true, ..Opts::k48() } };
+    rig::emu_stepping(&o)
+}
+
+fn port_case(e: &mut rig::Emu, m128: bool, sel: u8, data: u8, verbose: bool) -> Result<u64, Fail> {
+    let mach = if m128 { "128k" } else { "48k" };
+    guarded("ports:OUT/IN", || {
+        let ok = |got: u8, written: u8, reg: u8| got == written || got == written & reg_mask(reg);
+        rig::cpu_out(e, CODE, 0xFFFD, sel);
+        rig::cpu_out(e, CODE, 0xBFFD, data);
+        let a = rig::cpu_in(e, CODE, 0xFFFD);
+        // another register gets the complement, then the first one is re-selected through an alias
+        let other = sel ^ 1;
+        rig::cpu_out(e, CODE, 0xFFFD, other);
+        rig::cpu_out(e, CODE, 0xBFFD, !data);
+        rig::cpu_out(e, CODE, 0xFFFD, sel ^ 0xF0);
+        let b = rig::cpu_in(e, CODE, 0xFFFD);
+        rig::cpu_out(e, CODE, 0xFFFD, other ^ 0x50);
+        let c = rig::cpu_in(e, CODE, 0xFFFD);
+        if verbose {
+            println!("  {}: select {:02x}, write {:02x}: read {:02x}; after writing {:02x} to register {:02x} and selecting {:02x}: read {:02x}; selecting {:02x}: read {:02x}", mach, sel, data, a, !data, other, sel ^ 0xF0, b, other ^ 0x50, c);
+        }
+        if !ok(a, data, sel) {
+            return Err((
+                format!("C18:ports:readback:{}", mach),
+                format!("{}: OUT (FFFD),{:02x}; OUT (BFFD),{:02x}; IN (FFFD) = {:02x}, expected {:02x} or {:02x}", mach, sel, data, a, data, data & reg_mask(sel)),
+            ));
+        }
+        if !ok(b, data, sel) {
+            return Err((
+                format!("C18:ports:select-wrap:{}", mach),
+                format!(
+                    "{}: register {:02x} holds {:02x}; after writing {:02x} to register {:02x}, selecting {:02x} (same register modulo 16) reads {:02x}",
+                    mach, sel, data, !data, other, sel ^ 0xF0, b
+                ),
+            ));
+        }
+        if !ok(c, !data, other) {
+            return Err((
+                format!("C18:ports:select-wrap:{}", mach),
+                format!("{}: register {:02x} was written {:02x}; selecting {:02x} reads {:02x}", mach, other, !data, other ^ 0x50, c),
+            ));
+        }
+        Ok(fnv(&[9, sel & 15, a, b, c]))
+    })
+}
+
+fn port_checks(ctx: &Ctx, col: &Collector) {
+    let data: Vec<u8> = if ctx.thorough() { (0..=255u8).collect() } else { vec![0x00, 0x01, 0x0F, 0x10, 0x1F, 0x7F, 0x80, 0xFF] };
+    let outs: Mutex<HashSet<u64>> = Mutex::new(HashSet::new());
+    par_for(512, 1, |i| {
+        let m128 = i >= 256;
+        let sel = (i & 0xFF) as u8;
+        let mut e = port_emu(m128);
+        let mut local = HashSet::new();
+        for d in data.iter() {
+            match port_case(&mut e, m128, sel, *d, false) {
+                Ok(h) => {
+                    local.insert(h);
+                }
+                Err(f) => col.fail((40 + m128 as u64, sel as u64, *d as u64), &f.0, &f.1, || json!({"kind":"port","m128":m128,"sel":sel,"data":d})),
+            }
+            ctx.add_eval(1);
+        }
+        let _ = rig::drain_audio(&mut e);
+        outs.lock().unwrap().extend(local);
+    });
+    let outs = outs.into_inner().unwrap();
+    ctx.note("port_distinct_readback_triples", json!(outs.len()));
+    for h in outs.iter().take(50_000) {
+        ctx.outcome(*h);
+    }
+    ctx.sample(json!({"part":"ports","sequence":"OUT FFFD sel; OUT BFFD d; IN FFFD; OUT FFFD sel^1; OUT BFFD !d; OUT FFFD sel^F0; IN FFFD; OUT FFFD sel^1^50; IN FFFD","data_alphabet_size":data.len()}));
+}
+
+// =================================================================== entry
+
+pub fn run(tier: Tier, seed: u64, replay: Option<String>) -> i32 {
+    let ctx = Ctx::new("C18", tier, seed, "model_checking");
+    if let Some(path) = replay {
+        return replay_case(&path);
+    }
+    let col = Collector::new();
+    core_checks(&ctx, &col);
+    api_checks(&ctx, &col);
+    history_search(&ctx, &col, "full", &full_alphabet(), 3, 100);
+    history_search(&ctx, &col, "reduced", &reduced_alphabet(), if ctx.thorough() { 5 } else { 4 }, 200);
+    port_checks(&ctx, &col);
+    ctx.sample(json!({"part":"hist","example": ops_json(&[Op::W(7, 0x0F), Op::G(7), Op::W(13, 0x0F), Op::G(1000)])}));
+    col.flush(&ctx);
+    ctx.finish(
+        "E-PROD + E-BFS. Core (chip tick = f_clk/8, hooks verif_tick/verif_levels): tone periods x 3 channels (thorough: all 4096 incl. 0; quick: TP<64, TP>4032, every 7th) toggle count and exact half period on the raw output; R6 values: noise clock count and interval; 16 shapes x EP {1,2,3,255,256,4095,65535} x 100 steps against the documented ramp pattern (constant phase free), amplitude monotone in level; all 256 R7 values x 3 channels against (tone|off)&(noise|off) built from measured tone-only/noise-only waves; all 256 volume register values x 3 channels x AY/YM; 7 stereo modes x 3 channels x AY/YM. API: 12 sample rates x 4 programmes finite and |s|<=4; tone frequency from threshold crossings within 1 %. Histories: every sequence of <=3 operations over 99 ops (16 registers x {00,01,0F,10,1F,FF}, generate 1/7/1000) and of <=4 (quick) / <=5 (thorough) over a 24-op reduced alphabet, each replayed on a fresh chip: no panic, samples bounded, then 2048 chip ticks judged against the final register file (half periods, noise clock, envelope grid, gated output sum) and write-only R13-free histories against register-order writing. Ports: 256 select values x data alphabet x {48K+AY,128K} through CPU-executed OUT/IN. states = distinct post-history core behaviours; distinct = outcome digests",
+        true,
+        &[
+            "tone/noise phase, exact analog sample values and the +-1 counting convention are not judged",
+            "NP = 0 and EP = 0 are not judged; on the analog path tone frequencies at or above 0.45 x sample rate or 0.45 x chip tick rate (f_clk/8; this excludes TP=1, which AymPrecise renders as a constant mean level at every rate) are not judged",
+            "a sample with |s| > 4 counts as unbounded",
+            "hooks: AymPrecise::verif_tick (one update_mixer), verif_levels (read-only)",
+            "history checks replay every history from a fresh AymPrecise (the type is not Clone)",
+        ],
+    )
+}
+
+fn replay_case(path: &str) -> i32 {
+    let v: Value = serde_json::from_slice(&rig::read_file(path)).expect("replay json");
+    let c = &v["case"];
+    let u = |k: &str| c[k].as_u64().unwrap_or(0);
+    let b = |k: &str| c[k].as_bool().unwrap_or(false);
+    let kind = c["kind"].as_str().unwrap_or("");
+    println!("replay: {} {}", kind, c);
+    let res: Result<(), Fail> = match kind {
+        "tone" => tone_case(u("ch") as usize, u("tp") as u16, u("high") as u8, true).map(|_| ()),
+        "noise" => noise_case(u("np") as u8, true).map(|_| ()),
+        "env" => env_case(b("ym"), u("shape") as u8, u("ep") as u16, true).map(|_| ()),
+        "mixer" => mixer_case(u("ch") as usize, u("r7") as u8, true).map(|_| ()),
+        "volume" => volume_case(b("ym"), u("ch") as usize, true).map(|_| ()),
+        "pan" => pan_case(b("ym"), u("mode") as u8, u("ch") as usize, true).map(|_| ()),
+        "api-bounded" => api_bounded_case(u("rate") as usize, u("programme") as usize, u("millis") as usize, true).map(|_| ()),
+        "api-tone" => api_tone_case(u("rate") as usize, u("tp") as u16, u("millis") as usize, true).map(|_| ()),
+        "hist" => hist_case(&ops_from(&c["ops"]), &measure_tables(), true).map(|_| ()),
+        "port" => {
+            let mut e = port_emu(b("m128"));
+            port_case(&mut e, b("m128"), u("sel") as u8, u("data") as u8, true).map(|_| ())
+        }
+        _ => {
+            eprintln!("MACHINERY: unknown replay kind {:?}", kind);
+            return 2;
+        }
+    };
+    match res {
+        Ok(()) => {
+            println!("replay: case passes now");
+            0
+        }
+        Err((key, what)) => {
+            println!("replay: still failing: {} — {}", key, what);
+            1
+        }
+    }
 }
